@@ -55,6 +55,8 @@ def poff(o):
 def gen_spec(rng):
     south = rng.random() < 0.4
     std = rng.choice([-36000, -18000, -12600, 0, 3600, 19800, 34200, 43200])
+    if rng.random() < 0.15:
+        std += rng.choice([17, -43, 2, 59])          # sub-minute offsets (6-digit TZOFFSET form; reference is a tzrange)
     save = rng.choice([3600, 3600, 1800, 7200])
     def rule(early):
         if rng.random() < 0.75:
@@ -69,6 +71,22 @@ def gen_spec(rng):
 def tzstr_of(spec):
     return "SSS%sDDD%s,%s%s,%s%s" % (poff(spec["std"]), poff(spec["dst"]), posix_rule(spec["sr"]), ptime(spec["st"]),
                                      posix_rule(spec["er"]), ptime(spec["et"]))
+
+def reference_zone(spec):
+    """the tzstr of the same rules; a tzrange (explicit offsets + relativedelta rules) when the offsets have seconds"""
+    from dateutil import tz, relativedelta as rd
+    if spec["std"] % 60 == 0:
+        return tz.tzstr(tzstr_of(spec))
+    def delta(r, secs):
+        if r[0] == "M":
+            _, m, w, d = r
+            wd = (d - 1) % 7
+            kw = dict(month=m, day=31, weekday=rd.weekday(wd, -1)) if w == 5 else dict(month=m, day=1, weekday=rd.weekday(wd, w))
+        else:
+            kw = dict(month=r[1], day=r[2])
+        return rd.relativedelta(seconds=secs, **kw)
+    save = spec["dst"] - spec["std"]
+    return tz.tzrange("SSS", spec["std"], "DDD", spec["dst"], delta(spec["sr"], spec["st"]), delta(spec["er"], spec["et"] - save))
 
 def fold_line(rng, line):
     if len(line) > 12 and rng.random() < 0.3:
@@ -179,6 +197,20 @@ def rrulestr_rejects(model_line):
                     return True
     return False
 
+def rrule_groups_rejected(line):
+    from dateutil import rrule
+    groups = line[3:].split(";") if len(line) > 3 else []
+    for g in groups:
+        lines = [bytes.fromhex(h).decode() if h != "." else "" for h in g.strip("[]").split(",") if h]
+        if lines:
+            try:
+                with warnings.catch_warnings():
+                    warnings.simplefilter("ignore")
+                    rrule.rrulestr("\n".join(lines), compatible=True, ignoretz=True, cache=True)
+            except ValueError:
+                return True
+    return False
+
 def mutate_text(rng, text):
     lines = text.replace("\r\n ", "").split("\r\n")
     lines = [l for l in lines if l]
@@ -262,6 +294,7 @@ def correspondence(ctx):
             g = "err %s" % exc_kind(ex)
         reqs.append("ical.offset " + hexs(sv)); exp.append(("offset", g))
     got = ctx.driver(reqs)
+    pending = []
     for q, (kind, e), g in zip(reqs, exp, got):
         e = e.replace("err ParserError", "err ValueError")       # ParserError is a ValueError
         if kind == "parse":
@@ -274,6 +307,17 @@ def correspondence(ctx):
             if rrulestr_rejects(full):
                 continue
         if e != g:
+            if kind in ("parse", "get") and e == "err ValueError" and g.startswith("ok"):
+                pending.append((kind, q, e, g))
+            else:
+                ctx.mismatch("ical." + kind, q, e, g)
+    # the model stops before rrulestr(): ask it for every group of recurrence lines the real code hands to
+    # rrulestr (also in zones later overwritten or never closed) and see whether rrulestr rejects one of them
+    outs = ctx.driver(["ical.rrulecalls " + q.split()[1] for _, q, _, _ in pending])
+    for (kind, q, e, g), o in zip(pending, outs):
+        if rrule_groups_rejected(o):
+            ctx.count("parse_rejected_by_rrulestr")
+        else:
             ctx.mismatch("ical." + kind, q, e, g)
     ctx.traces += len(reqs)
     ctx.count("corr_texts", len(texts))
@@ -340,7 +384,7 @@ def oracle(ctx):
         s = tzstr_of(spec)
         with warnings.catch_warnings():
             warnings.simplefilter("ignore")
-            zs = tz.tzstr(s)
+            zs = reference_zone(spec)
             try:
                 zi = load(text).get()
             except Exception as ex:
